@@ -3,9 +3,10 @@
 ID="$1"; PROP="$2"; TIER="${3:-quick}"
 OUT=/verif/seeded/$ID
 LOG="$OUT/check-$PROP-$TIER.log"
-/verif/tools/scripts/run-mutant.sh "$OUT/patch.diff" "$PROP" "$TIER" > "$LOG" 2>&1
-E=$(grep -E '^exit=' "$LOG" | tail -1 | cut -d= -f2)
-CLASS=$(grep -E '^violation class:' "$LOG" | head -1 | sed 's/violation class: //')
+PATCH="$OUT/patch.diff"; [ -f "$OUT/patch.rebased.diff" ] && PATCH="$OUT/patch.rebased.diff"   # rebased onto the repaired /repo
+/verif/tools/scripts/run-mutant.sh "$PATCH" "$PROP" "$TIER" > "$LOG" 2>&1
+E=$(grep -aE '^exit=' "$LOG" | tail -1 | cut -d= -f2)
+CLASS=$(grep -aE '^violation class:' "$LOG" | head -1 | sed 's/violation class: //')
 python3 - "$OUT" "$PROP" "$TIER" "$E" "$CLASS" <<'PY'
 import json,sys,os
 out,prop,tier,e,cls=sys.argv[1:6]
